@@ -71,7 +71,7 @@ def run(ctx):
     return ctx.finish(
         level="proof",
         rule="requests (script function/filtermap/test signature, requested Rust fn type) made in histories on one package: for each "
-             "of 8 targets per script out of a macro-generated family of 1815 Rust fn types (177 boundary types: 20 leaves x "
+             "of 8 targets per script out of a macro-generated family of 1822 Rust fn types (177 boundary types: 20 leaves x "
              "Option/List/Result/Verdict to depth 2 + depth 3, arity 0..7; plus verdicts of the 14 payload types a filtermap body can "
              "build from unconstrained literals and of 30 neighbours of other width / signedness / float width / order) the true "
              "signature and 4-6 near misses (one leaf / nesting / "
@@ -94,7 +94,16 @@ def run(ctx):
              "of the worker process on another package; then the shortest run of them) so that the replay file carries what of the "
              "process - whose TypeRegistry is shared by all packages - the answer depends on. A class is distinct by "
              "(derivation label, outcome kind, mismatch class, arity), plus (round, true/wrong, label) for repeated requests and "
-             "(label, same/other value) for calls",
+             "(label, same/other value) for calls. Names that are no function of the script: the first 5 scripts of every run are class "
+             "representatives, whatever the seed (25 constants of 24 types; a sub-module with functions, a test, constants and a record; "
+             "generic records / enums and a test named like a function; the generated clone/drop/eq helpers of a script that needs them; "
+             "the ~95 functions and the constants the host registered), every generated script carries three constants (types walking a "
+             "pool of 24: every leaf, (), one and two levels of every constructor) and every third a sub-module; each such name - as written, "
+             "with `pkg.`, as `constant#K`, lower-cased, through the wrong module, helpers also as `clone_N` / `generated::clone_N` - is asked "
+             "under `fn() -> T` for the item's own type, `fn()`, a neighbouring function's true type (representatives: also the test type and "
+             "a one-parameter shape; helpers: the ABI shapes of drop / clone / eq) and must be refused; per script the real function table "
+             "(hook) is compared with the table the modelled compiler pipeline builds from the declarations, and every entry of the real "
+             "table that carries a signature without being a declared function is asked for under the type the table advertises",
         search=search,
     )
 
